@@ -9,11 +9,11 @@ import (
 
 // Field vocabulary. Prefix pairs (x, xy), dotted siblings (n, n.a, n.b) and
 // odd names are there on purpose.
-var fieldVocab = []string{"a", "b", "x", "xy", "n.a", "n.b", "t", "s", "arr", "obj", "é", "k:1", "a b"}
+var fieldVocab = []string{"a", "b", "x", "xy", "n.a", "n.b", "t", "s", "arr", "obj", "é", "k:1", "a b", "k%d", "k2", "100%s"}
 
 type Schema struct {
-	Fields []string
-	Prof   map[string]Profile
+	Fields  []string
+	Prof    map[string]Profile
 	NScalar int // percent of documents in which "n" is a scalar instead of an object
 	Pad     int // maximum padding bytes (0 = none)
 }
@@ -56,12 +56,12 @@ func (s *Schema) Has(f string) bool { _, ok := s.Prof[f]; return ok }
 func (s *Schema) IndexableFields() []string {
 	out := []string{}
 	for _, f := range s.Fields {
-		if s.Prof[f].Kind == PBigInt {
-			continue // index keys are only specified within 2^53 (C10)
+		if s.Prof[f].Kind == PBigInt || s.Prof[f].Kind == PTimeFar {
+			continue // index keys are only specified within 2^53 and from 1970 to the end of the UnixNano range (C10)
 		}
 		out = append(out, f)
 	}
-	if (s.Has("n.a") || s.Has("n.b")) && s.Prof["n.a"].Kind != PBigInt && s.Prof["n.b"].Kind != PBigInt {
+	if (s.Has("n.a") || s.Has("n.b")) && s.Prof["n.a"].Kind != PBigInt && s.Prof["n.b"].Kind != PBigInt && s.Prof["n.a"].Kind != PTimeFar && s.Prof["n.b"].Kind != PTimeFar {
 		out = append(out, "n") // the object itself, unless it holds integers beyond 2^53
 	}
 	return out
